@@ -31,7 +31,8 @@ BOUND = 3.5      # seconds after the limit: one hook period plus os.time()'s one
 def run(run):
     run.rule = ("non-terminating bodies (tight loop, loop calling string/table library functions, pattern matching loop, deep "
                 "recursion) and a terminating control, under 11 wrappers (none, pcall, pcall in a loop, xpcall, xpcall in a loop, "
-                "nested pcall, coroutine, coroutines in a loop, clearing the hook, raising the limit, error-then-loop), each "
+                "nested pcall, coroutine, coroutines in a loop, clearing the hook, raising the limit, error-then-loop) and in 7 places "
+                "(top level of the invoked / a required / a data module, after or inside a nested invocation), each "
                 "followed by benign invocations on the same context; limit 1 s, external watchdog; non-trivial = non-terminating "
                 "body; distinct by (body, wrapper)")
     run.trusted = [
@@ -51,6 +52,27 @@ def run(run):
         tpl = WRAPPERS[w]
         body = tpl % ((BODIES[b],) * tpl.count("%s"))
         cases.append({"body": body, "timeout": 1, "followups": FOLLOW[:2] if quick else FOLLOW, "_timeout": 1 + 12, "b": b, "w": w})
+    # where the non-terminating code sits: at the top level of the invoked module, of a required module, of a data module,
+    # or in the invoked function after a nested invocation has come and gone
+    LOOP = "while true do end"
+    places = {
+        "module-toplevel": {"module_src": LOOP + "\nlocal e = {}\nfunction e.main(frame) return 'loaded' end\nreturn e"},
+        "required-toplevel": {"module_src": "local e = {}\nfunction e.main(frame) local d = require('Module:hangdep') return 'r' end\nreturn e",
+                              "extra": {"hangdep": LOOP + "\nreturn {}"}},
+        "required-at-load": {"module_src": "local d = require('Module:hangdep')\nlocal e = {}\nfunction e.main(frame) return 'r' end\nreturn e",
+                             "extra": {"hangdep": LOOP + "\nreturn {}"}},
+        "loaddata-toplevel": {"module_src": "local e = {}\nfunction e.main(frame) local d = mw.loadData('Module:hangdata') return 'd' end\nreturn e",
+                              "extra": {"hangdata": LOOP + "\nreturn {}"}},
+        "after-nested-invoke": {"module_src": "local e = {}\nfunction e.main(frame) local x = frame:preprocess('{{#invoke:echo|main|q}}') "
+                                              + LOOP + " end\nreturn e"},
+        "after-expandtemplate": {"module_src": "local e = {}\nfunction e.main(frame) local x = frame:expandTemplate{title='a', args={'q'}} "
+                                               + LOOP + " end\nreturn e"},
+        "in-nested-invoke": {"module_src": "local e = {}\nfunction e.main(frame) return frame:preprocess('{{#invoke:hangdep2|main}}') end\nreturn e",
+                             "extra": {"hangdep2": "local e = {}\nfunction e.main(frame) " + LOOP + " end\nreturn e"}},
+    }
+    for name, spec in places.items():
+        cases.append(dict(spec, body="return 'unused'", timeout=1, followups=FOLLOW[:2] if quick else FOLLOW, _timeout=13,
+                          b="tight", w="place:" + name))
     # histories: an invocation that fails in some way, optionally a pause longer than the limit, then benign invocations
     firsts = {"no-such-function": "{{#invoke:echo|nofn}}", "no-such-module": "{{#invoke:nomod|main}}", "module-load-fails": "{{#invoke:syn|main}}",
               "runtime-error": "{{#invoke:hang|main}}", "timeout": "{{#invoke:hang|main}}"}
@@ -84,7 +106,7 @@ def run(run):
         key = "%s:%s" % (c["w"], "finite" if c["b"] == "finite" else ("recurse" if c["b"] == "recurse" else "loop"))
         if r.get("outcome") == "timeout":
             run.property_failure("c07:not-stopped:%s" % key, "invocation (%s body under %s) still running %d s after a 1 s limit"
-                                 % (c["b"], c["w"], c["_timeout"] - 1), {k: c[k] for k in ("body", "timeout", "followups", "w", "b")})
+                                 % (c["b"], c["w"], c["_timeout"] - 1), {k: c[k] for k in ("body", "timeout", "followups", "w", "b", "module_src", "extra") if k in c})
             continue
         if r.get("outcome") != "ok":
             run.property_failure("c07:raised:%s:%s" % (key, r.get("exc", "")), "expand raised: %r" % (r,), {k: c[k] for k in ("body", "timeout", "followups", "w", "b")})
